@@ -199,7 +199,7 @@ def verify_delegation(
             "delegation_name must be a string, not a " + str(type(delegation_name))
         )
 
-    if gpg not in [True, False]:
+    if not isinstance(gpg, bool):
         raise TypeError(
             'Argument "gpg" must be a boolean.'
         )  # should probably be ValueError
